@@ -84,10 +84,10 @@ std::
 
   intermediate_dest const dest(fcppt::cast::detail::truncation_check<intermediate_type>(_source));
 
-  return fcppt::optional::bind(dest, [_source](intermediate_type const _dest) {
+  return fcppt::optional::bind(dest, [](intermediate_type const _dest) {
     return fcppt::cast::to_unsigned(std::numeric_limits<Dest>::max()) < _dest
                ? dest_type()
-               : dest_type(fcppt::cast::size<Dest>(fcppt::cast::to_signed(_source)));
+               : dest_type(fcppt::cast::to_signed(_dest));
   });
 }
 
